@@ -9,6 +9,7 @@ Wall-clock / memory conditions are value-level and not decided.
 from __future__ import annotations
 
 import ast
+import re
 
 from sa.engine.cfg import CFG
 from sa.engine.index import AnalysisError, call_name, kwarg, last_attr, norm, own_nodes, parent, qualname
@@ -100,15 +101,26 @@ def _ret_attr(fn):
 def check(ctx) -> None:
     repo = ctx.repo
     ctx.rule("C17.loop", "MUST-PASS: each search loop tests self.resources_left() as a top-level conjunct, reaches self.after_search_iteration() exactly once per iteration, and is dominated by before_search_start()", floor=8 * 4)
-    ctx.rule("C17.reset-first", "before_search_start() (which resets the budget counters) is the first statement of the function that calls it: nothing is executed before the budgets start to count", floor=6)
+    ctx.rule("C17.reset-first", "before_search_start() (which resets the budget counters) is a top-level statement of the function that calls it, called once, and nothing before it is a call on the algorithm object or one that receives it (logging excepted): nothing is executed before the budgets start to count", floor=6)
     for mod_, qn_, fn_ in repo.all_functions("pynguin.ga.algorithms"):
         calls_ = [c for c in own_nodes(fn_) if isinstance(c, ast.Call) and norm(c.func) == "self.before_search_start"]
         if not calls_:
             continue
         ctx.analysed(fn_)
-        body_ = [st for st in fn_.body if not (isinstance(st, ast.Expr) and isinstance(st.value, ast.Constant))]
-        first_ = bool(body_) and isinstance(body_[0], ast.Expr) and body_[0].value is calls_[0]
-        ctx.check("C17.reset-first", calls_[0], first_ and len(calls_) == 1, f"{qn_}: before_search_start() is not the first statement (or is called more than once): test executions made before it (the initial population) are forgotten when the counters are reset, so the search starts its iterations with the budget already spent", what=f"{qn_}: budgets reset before anything runs", stmt=f"[{qn_}]")
+        # the reset is a top-level statement and nothing before it calls into the algorithm, the executor
+        # or a factory (logging, clocks, configuration reads and pure builtins do not consume budget)
+        top_ = [i for i, st in enumerate(fn_.body) if isinstance(st, ast.Expr) and st.value is calls_[0]]
+        first_ = bool(top_)
+        for st in fn_.body[: top_[0]] if top_ else []:
+            for c in ast.walk(st):
+                if not isinstance(c, ast.Call):
+                    continue
+                f = norm(c.func)
+                is_log = re.match(r"(self\.)?_?(logger|LOGGER|log)\b|logging\.", f) is not None
+                uses_self = f.startswith("self.") or any(isinstance(x, ast.Name) and x.id == "self" for a_ in [*c.args, *[k.value for k in c.keywords]] for x in ast.walk(a_))
+                harmless = is_log or not uses_self  # only a call on / with the algorithm can execute tests or run its hooks
+                first_ = first_ and harmless
+        ctx.check("C17.reset-first", calls_[0], first_ and len(calls_) == 1, f"{qn_}: before_search_start() is preceded by a call that can execute tests or run hooks, is nested in a branch, or is called more than once: test executions made before it (the initial population) are forgotten when the counters are reset, so the search starts its iterations with the budget already spent", what=f"{qn_}: budgets reset before anything runs", stmt=f"[{qn_}]")
     ctx.rule("C17.resources", "resources_left() is `all(not sc.is_fulfilled() for sc in self._stopping_conditions)` (universal, unfiltered)", floor=1)
     ctx.rule("C17.counter", "counting conditions: is_fulfilled is counter >= limit; the counter is incremented only and unconditionally in its designated hook and reset in before_search_start", floor=3 * 4)
     ctx.rule("C17.wiring", "every stopping condition handed to the strategy is registered as search observer, and as executor observer when it observes execution; counting conditions declare observes_execution=True", floor=5)
